@@ -68,7 +68,7 @@ NestedStringTokenizer::NestedStringTokenizer(const std::string& s, const std::st
     string::size_type index = 0;
     while (index != s.npos)
     {
-      string::size_type newIndex = s.find(delimiters, index);
+      string::size_type newIndex = delimiters.empty() ? s.npos : s.find(delimiters, index);
       bool endBlockFound = false;
       while (!endBlockFound)
       {
